@@ -16,6 +16,10 @@ for fn in sorted(os.listdir(os.path.join(HERE, 'oracle'))):
             for k in ('status', 'commit'):
                 if k in old[e['id']]: e[k] = old[e['id']][k]
         out.append(e)
+# entries that exist only in the committed file (recorded by hand, e.g. defects found by a proof agent and repaired) are kept
+mod_ids = {e['id'] for e in out}
+for fid, f in old.items():
+    if fid not in mod_ids: out.append(f)
 ids = [e['id'] for e in out]
 pass  # several witnesses may share one finding id
 json.dump({'comment': 'Genuine defects of Python-Markdown found by these checks: status open = recorded, not repaired (the check prints KNOWN-FINDING while the witness still fails); status fixed = repaired by the fix: commit named, suppresses nothing. Never written at run time. See DESIGN.md section 6.',
